@@ -16,7 +16,7 @@ SOURCES = ['src/dtaidistance/alignment.py', 'src/dtaidistance/dp.py']
 FUNCTIONS = ['alignment.needleman_wunsch', 'dp.dp', 'alignment.best_alignment (all six traceback orders)', 'alignment.make_substitution_fn (dictionary, opt max / min, gap)',
              'alignment._needleman_wunsch_border, _default_substitution_fn']
 BOUNDS = {'quick': {'alphabet': '{A,B}', 'lengths': '1..3 (dictionary substitution: 1..2)', 'orders': 'all 6', 'substitution': 'default, dictionary opt=max/min (gap 1); gap 0.5 is the region of the known finding F17-gap-border'},
-          'thorough': {'alphabet': '{A,B,C}', 'lengths': '1..4 (dictionary substitution: 1..3)', 'orders': 'all 6'}}
+          'thorough': {'alphabet': '{A,B,C}', 'lengths': '1..4 (dictionary substitution: 1..3; optimality against the exhaustive oracle: 1..4 over {A,B} and 1..3 over {A,B,C})', 'orders': 'all 6'}}
 OUTSIDE = ['empty sequences', 'symbolic substitution scores', 'window / max_dist / max_step / psi of dp', 'sequences longer than the bound']
 ASSUMPTIONS = ['oracle: exhaustive recursion over all global alignments, inside the contract', 'CrossHair verdict "Confirmed over all paths" only; anything else is inconclusive']
 RULE = 'one CrossHair condition per (substitution kind, traceback order); strings symbolic within the length / alphabet bound; plus a reachability twin.'
@@ -36,8 +36,13 @@ def tasks(tier, seed):
         line = src[:m.start()].count('\n') + 2
         small = 'matrix' in fn
         maxlen = (2 if small else 3) if tier == 'quick' else (3 if small else 4)
-        ts.append({'harness': 'crosshair/' + fn, 'fn': fn, 'line': line, 'maxlen': maxlen, 'alpha': 'AB' if tier == 'quick' else 'ABC',
-                   'est': 10 ** maxlen, 'tier': tier, 'seed': seed})
+        combos = [(maxlen, 'AB' if tier == 'quick' else 'ABC')]
+        if tier == 'thorough' and fn == '_nw_default':
+            # with the exhaustive-alignment oracle inside the contract, length 4 over three symbols does not finish in 2400 s
+            combos = [(4, 'AB'), (3, 'ABC')]
+        for ml, alpha in combos:
+            ts.append({'harness': 'crosshair/' + fn, 'fn': fn, 'line': line, 'maxlen': ml, 'alpha': alpha,
+                       'est': 10 ** ml * len(alpha), 'tier': tier, 'seed': seed})
     ts.sort(key=lambda t: -t['est'])
     return ts
 
